@@ -424,7 +424,7 @@ def finish_suites(ctx, st):
 def run(ctx):
     ctx.rule = ("enumerated: every call sequence of 4 (quick) / 5 (thorough) ops over fixed alphabets (12 ops on 3 handlers "
                 "for handlerStore, 9 with sub-events, 15 ops on 2 events x 2 handlers and 10 with closures of one literal "
-                "for eventHandlerStore), 3 (quick) / 4 (thorough) ops for each of the 18 public lifecycle families and the 3 "
+                "for eventHandlerStore), 3 (quick) / 4 (thorough) ops for each of the 17 public lifecycle families and the 3 "
                 "public event APIs, each followed by closing occurrences; seeded random sequences up to 30 ops; concurrent "
                 "once race (counted per Once handler). Non-trivial = at least one handler was run by some occurrence "
                 "(distinct (target, sequence)).")
